@@ -141,6 +141,14 @@ func Encode(hrp string, data []byte) (string, error) {
 
 // Decode decodes a Bech32 string. If the string is uppercase, the HRP will be uppercase.
 func Decode(s string) (hrp string, data []byte, err error) {
+	// Only printable ASCII is valid. This has to be checked before any case
+	// mapping: Unicode case folding changes some non-ASCII characters into
+	// ASCII ones (U+212A KELVIN SIGN lower-cases to 'k') and changes lengths.
+	for p, c := range s {
+		if c < 33 || c > 126 {
+			return "", nil, fmt.Errorf("invalid character: s[%d]=%d", p, c)
+		}
+	}
 	if strings.ToLower(s) != s && strings.ToUpper(s) != s {
 		return "", nil, fmt.Errorf("mixed case")
 	}
